@@ -309,6 +309,7 @@ fn main() {
         };
         let mut o = Opts::new(tier, if tier == "quick" { 12 } else { 16 });
         o.min_depth = 4;
+        o.xcheck = tier == "thorough";
         o.rule = "all sequences over {approve single x4 contents per key, 4 batches (same-key/different-content, identical twins, two keys, three entries), validate_message x {3 callers (two principals, one calling contract), 2 source addresses, 2 payload hashes, authorised or not} per key, advance 20 ledgers (bounded)}; ids (ab,c)/(a,bc) differ only in the split; explored to fixpoint of the finite status graph; after every new state is_message_approved for all key x content pairs and is_message_executed for all keys are compared with the model".into();
         (s, o)
     });
